@@ -1849,7 +1849,13 @@ class Engine:
         args = []
         for a in e.args:
             if isinstance(a, ast.Starred):
-                raise Unsupported('*args')
+                v = self.eval(a.value)
+                if isinstance(v, PyList):
+                    v = tuple(v.items)
+                if not isinstance(v, tuple):
+                    raise Unsupported('*args of a non-tuple')
+                args.extend(v)                 # f(*args): the positional arguments handed through
+                continue
             args.append(self.eval(a))
         kwargs = {}
         for k in e.keywords:
@@ -1959,11 +1965,14 @@ class Engine:
 
     def inline(self, node, closure_env, args, kwargs, recv=None, cls=None):
         a = node.args
-        if a.vararg or a.kwonlyargs:
-            raise Unsupported('inline: varargs')
+        if a.kwonlyargs:
+            raise Unsupported('inline: keyword-only parameters')
         params = [p.arg for p in a.args]
         frame = {'__parent__': closure_env}
         vals = list(args)
+        if a.vararg:
+            frame[a.vararg.arg] = tuple(vals[len(params):])
+            vals = vals[:len(params)]
         if recv is not None or cls is not None:
             is_static = any(ast.unparse(d) == 'staticmethod' for d in getattr(node, 'decorator_list', []))
             if not is_static:
